@@ -37,15 +37,15 @@ def world_for(server, port=22, host=HOST, ip=IP, **kw):
     return vnet.World(servers={(ip, port): server}, resolver={host: [(int(fam), ip)]}, **kw)
 
 
-def audit(server, opts=('-n', '--skip-rate-test'), host=HOST, port=22, faults=None, world_kw=None, target=None, via_targets_file=False):
+def audit(server, opts=('-n', '--skip-rate-test'), host=HOST, port=22, faults=None, world_kw=None, target=None, via_targets_file=False, stdout_mode='capture'):
     w = world_for(server, port=port, host=host, faults=faults, **(world_kw or {}))
     tgt = target if target is not None else (host if port == 22 else '%s:%d' % (host, port))
     if via_targets_file:      # the same single target as the only line of a -T file (the multi-target code path)
         path = tmp_path('single-target-%d.txt' % os.getpid())
         with open(path, 'w') as f:
             f.write(tgt + '\n')
-        return runner.run_cli(list(opts) + ['-T', path, '--threads', '1'], w)
-    return runner.run_cli(list(opts) + [tgt], w)
+        return runner.run_cli(list(opts) + ['-T', path, '--threads', '1'], w, stdout_mode=stdout_mode)
+    return runner.run_cli(list(opts) + [tgt], w, stdout_mode=stdout_mode)
 
 
 def client_audit(client, opts=('-n',), port=2222, world_kw=None, faults=None):
